@@ -477,8 +477,9 @@ func runC18Free(ctx *Ctx, idx int, r *gen.R) Result {
 	go func() {
 		defer wg.Done()
 		defer func() {
+			atomic.StoreInt32(&stop, 1) // also when the mutator dies, so that the others end
 			if p := recover(); p != nil {
-				report("mutator panicked: %v", p)
+				report("mutator panicked: %v\n%s", p, gkvStack())
 			}
 		}()
 		for i := 0; i < rounds*4; i++ {
@@ -517,7 +518,7 @@ func runC18Free(ctx *Ctx, idx int, r *gen.R) Result {
 			defer wg.Done()
 			defer func() {
 				if p := recover(); p != nil {
-					report("reader %d panicked: %v", w, p)
+					report("reader panicked: %v\n%s", p, gkvStack())
 				}
 			}()
 			for i := 0; atomic.LoadInt32(&stop) == 0 && i < rounds*20; i++ {
@@ -582,4 +583,20 @@ func runC18Free(ctx *Ctx, idx int, r *gen.R) Result {
 	ctx.Stats["c18.free-running-callback-calls"] += atomic.LoadInt64(&calls)
 	return Result{Hash: gen.Mix(uint64(idx), uint64(calls)), NonTrivial: calls > 0, Viol: v,
 		Sample: map[string]interface{}{"index": idx, "kind": "free-running", "cache_state": state, "callback_calls": calls}}
+}
+
+// gkvStack returns the gkvlite/harness frames of the current goroutine's stack.
+func gkvStack() string {
+	buf := make([]byte, 1<<14)
+	n := runtime.Stack(buf, false)
+	var out []string
+	for _, l := range strings.Split(string(buf[:n]), "\n") {
+		if strings.Contains(l, "gkvlite") || strings.Contains(l, "verif/") {
+			out = append(out, strings.TrimSpace(l))
+		}
+		if len(out) > 24 {
+			break
+		}
+	}
+	return strings.Join(out, "\n")
 }
